@@ -111,6 +111,8 @@ SHAPES = {
     "inner_nomatch": "catch(catch((%s), foo31, true), error(E,_), true).",
     "scc": "catch(setup_call_cleanup(true, (%s), assertz(cl31(c))), error(E,_), true).",
     "uncaught": "(%s).",
+    # a long continuation behind the catch/3: a flag that is not cleared by its delivery is delivered again there
+    "then_loop": "catch((%s), error(E,_), true), lp31(400).",
 }
 
 
@@ -265,7 +267,8 @@ def run(ctx):
     if tier == "quick":
         sel = ["nop", "loop"] + rng.sample([n for n in names if n not in ("nop", "loop")], 8)
         combos = [(n, "caught", 0) for n in sel]
-        combos += [(sel[2], "inner_nomatch", 0), (sel[3], "uncaught", 0), ("loop", "scc", 0), (sel[4], "caught", rng.randint(1, 120))]
+        combos += [(sel[2], "inner_nomatch", 0), (sel[3], "uncaught", 0), ("loop", "scc", 0), (sel[4], "caught", rng.randint(1, 120)),
+                   ("loop", "then_loop", 0)]
         limit = 14
     else:
         combos = []
@@ -276,6 +279,7 @@ def run(ctx):
             combos.append((n, "uncaught", 0))
             combos.append((n, "scc", 0))
             combos.append((n, "scc", 53))
+            combos.append((n, "then_loop", 0))
         limit = 0
 
     # phase 1: unfaulted runs
